@@ -26,6 +26,14 @@ def reset():
     FAIL["invalidate"] = 0
 
 
+CLOCK = [None]  # a SimClock; entries are stamped with it and expire by their timeout argument
+
+
+def _now():
+    c = CLOCK[0]
+    return c.now if c is not None else 0.0
+
+
 class SimDictCache(CacheImpl):
     pass_context = False
 
@@ -33,19 +41,29 @@ class SimDictCache(CacheImpl):
         # like Beaker's starttime rule: a recompiled template starts with a clean namespace
         return STORE.setdefault((self.cache.id, self.cache.starttime), {})
 
+    def _live(self, ns, key, timeout):
+        ent = ns.get(key)
+        if ent is None:
+            return None
+        if timeout is not None and _now() >= ent[1] + timeout:
+            return None
+        return ent
+
     def get_or_create(self, key, creation_function, **kw):
         ns = self._ns()
-        if key in ns:
-            return ns[key]
+        ent = self._live(ns, key, kw.get("timeout"))
+        if ent is not None:
+            return ent[0]
         value = creation_function()
-        ns[key] = value
+        ns[key] = (value, _now())
         return value
 
     def set(self, key, value, **kw):
-        self._ns()[key] = value
+        self._ns()[key] = (value, _now())
 
     def get(self, key, **kw):
-        return self._ns().get(key)
+        ent = self._live(self._ns(), key, kw.get("timeout"))
+        return ent[0] if ent is not None else None
 
     def invalidate(self, key, **kw):
         self._ns().pop(key, None)
